@@ -74,6 +74,7 @@ class Ctx:
         self.side = []  # facts about atoms (ELN relations, stub contracts)
         self.stats = Stats()
         self.int_candidates = list(range(-3, 12))
+        self.branch_lemmas = False
         self.last_model = None
         self.notes = []
 
@@ -132,8 +133,9 @@ class Ctx:
             self.decisions.append(d)
             self.solver.add(cond if d else z3.Not(cond))
             return d
-        rt = self.quick(cond)
-        rf = self.quick(z3.Not(cond))
+        lem = uf_lemmas([cond] + list(self.solver.assertions())) if self.branch_lemmas else []
+        rt = self.quick(cond, *lem)
+        rf = self.quick(z3.Not(cond), *lem)
         if rt != 'unsat' and rf != 'unsat':
             self.worklist.append(self.decisions + [False])
             d = True
@@ -556,7 +558,38 @@ def reachable(c: Ctx, timeout_ms=None):
         return c.last_model_solver.model()
     if r == 'unsat':
         return None
-    raise Inconclusive('reachability twin: solver unknown')
+    # the solver gave up: a concrete point satisfying the whole path condition (evaluated numerically) is an
+    # equally good witness of reachability
+    for lo, hi in ((0.2, 2.5), (-3.0, 3.0), (-1.0, 1.0)):
+        pts = sample_points(c, list(c.side), k=1, lo=lo, hi=hi, tries=3000, extra=dict(WITNESS_CONSTANTS))
+        for asg in pts:
+            try:
+                if all(evalnum(a, asg) for a in c.side):
+                    return NumericWitness(asg)
+            except (ValueError, ZeroDivisionError, OverflowError, TypeError, Inconclusive):
+                continue
+    raise Inconclusive('reachability twin: solver unknown and no numeric witness found')
+
+
+WITNESS_CONSTANTS = {'C_INV_SQRT_2PI': 0.3989422804014327}
+
+
+class NumericWitness:
+    """a concrete assignment standing for a model"""
+
+    def __init__(self, asg):
+        self.asg = asg
+
+    def decls(self):
+        return []
+
+
+def witness(c: Ctx, timeout_ms=None):
+    """like reachable() but returns None when no witness could be produced (infeasible or undecided path)"""
+    try:
+        return reachable(c, timeout_ms)
+    except Inconclusive:
+        return None
 
 
 def eq_terms(a, b):
@@ -568,6 +601,8 @@ def eq_terms(a, b):
 
 def model_to_assignment(model, terms=()) -> dict:
     """{variable name: python float} for all real/int constants of the model."""
+    if hasattr(model, 'asg'):
+        return dict(model.asg)
     out = {}
     for d in model.decls():
         if d.arity() != 0:
